@@ -1,4 +1,5 @@
 import NdnProofs.Lemmas.CodecRT
+import NdnProofs.Lemmas.ClassMerge
 /-!
 # C08 — TLV models encode to exact, minimal TLV and decode back to equal values
 
@@ -11,6 +12,8 @@ differs from the key's, no marker fields) and `fitsFs fs vs` (decidable "legal a
 per field, text is valid UTF-8, name components are single TLV elements, lists hold present values,
 dicts hold present keys and values with pairwise different keys).  Everything is for **all**
 schemas and values (structural induction over the schema/value trees and field lists).
+The last section is about the metaclass: how the field list of a class with base classes / `IncludeBase`
+comes about (`Ndn.Codec.mergeFields`), for **all** class bodies and bases.
 -/
 namespace Ndn.C08
 open Ndn Ndn.Codec
@@ -342,5 +345,170 @@ example : parse exMapFs false
 /-- a dict with a repeated key is not a legal assignment (a Python dict cannot hold one) -/
 example : fitsFs exMapFs [.uint 1, .map [(.bytes [107], .uint 5), (.bytes [107], .uint 6)], .model [.map []]]
     = false := by decide
+
+/-! ## the metaclass: how a class with base classes gets its field list
+
+`Ndn.Codec.mergeFields bases body` models `TlvModelMeta.__new__` (`NdnModel/ClassMerge.lean`): `body` is
+the list of assignments of the class body, `bases` the direct base classes with their own (already
+collected) field lists.  Specification vocabulary (`NdnProofs/Lemmas/ClassMerge.lean`):
+`expand bases dict` — the assignments `name ← field` the class stands for (an own field under its
+attribute name; at an `IncludeBase` the fields of that base in the base's order; nothing else);
+`assignAll` — carrying such assignments out on an empty Python dict; `firstOcc` — names at their first
+occurrence; `lastVal` — the value assigned last; `Legal` — every `IncludeBase` names a direct base that
+is a TlvModel. -/
+
+/-- the attributes of `cls.__dict__` the metaclass looks at -/
+def visible {α : Type} (body : List (List Char × Decl α)) : List (List Char × Decl α) :=
+  (classDict body).filter fun p => !dunder p.1
+
+/-- **merge_is_assignment.** Whenever the class can be created, its `_encoded_fields` is the Python dict
+    obtained by carrying out, in order, the assignments the class body stands for (the position
+    bookkeeping of the metaclass - `index_dict` - is exactly that of a dict). -/
+theorem merge_is_assignment {α : Type} (bases : List (BaseCls (List Char) α)) (body : List (List Char × Decl α))
+    (fs : List (List Char × α)) (h : mergeFields bases body = .ok fs) :
+    fs = assignAll (expand bases (visible body)) :=
+  mergeClass_ok bases _ fs h
+
+/-- **merge_ok_iff.** Creating the class raises `IncludeBaseError` exactly when some visible `IncludeBase`
+    names a class that is not a direct base or not a TlvModel; nothing else fails. -/
+theorem merge_ok_iff {α : Type} (bases : List (BaseCls (List Char) α)) (body : List (List Char × Decl α)) :
+    (∃ fs, mergeFields bases body = .ok fs) ↔ Legal bases (visible body) :=
+  mergeClass_isOk bases _
+
+/-- **merged_order.** Every name occurs once, and the names stand in the order of their *first*
+    assignment: own fields in declaration order, the fields of an included base at the place of its
+    `IncludeBase` in the base's order - except that a name assigned before (own or included) keeps its
+    earlier place. -/
+theorem merged_order {α : Type} (bases : List (BaseCls (List Char) α)) (body : List (List Char × Decl α))
+    (fs : List (List Char × α)) (h : mergeFields bases body = .ok fs) :
+    (PyDict.keys fs).Nodup ∧ PyDict.keys fs = firstOcc ((expand bases (visible body)).map (·.1)) := by
+  rw [merge_is_assignment bases body fs h]
+  exact ⟨assignAll_nodup _, assignAll_keys _⟩
+
+/-- **merged_field_is_last_assignment.** The field that stands under a name is the one assigned *last*
+    (a redeclared name - an override of an included field, or an included field over an earlier own one -
+    replaces the field where it stands); a name is in the list iff something assigns it. -/
+theorem merged_field_is_last_assignment {α : Type} (bases : List (BaseCls (List Char) α))
+    (body : List (List Char × Decl α)) (fs : List (List Char × α)) (h : mergeFields bases body = .ok fs)
+    (name : List Char) : PyDict.get? fs name = lastVal (expand bases (visible body)) name := by
+  rw [merge_is_assignment bases body fs h]
+  exact assignAll_get? _ _
+
+/-- **merged_plain.** Without a name clash the field list is literally the class body with every
+    `IncludeBase` replaced by the fields of its base. -/
+theorem merged_plain {α : Type} (bases : List (BaseCls (List Char) α)) (body : List (List Char × Decl α))
+    (fs : List (List Char × α)) (h : mergeFields bases body = .ok fs)
+    (hn : ((expand bases (visible body)).map (·.1)).Nodup) : fs = expand bases (visible body) := by
+  rw [merge_is_assignment bases body fs h]
+  exact assignAll_of_nodup _ hn
+
+/-- **base_not_included_ignored.** The fields of a base class that no visible `IncludeBase` names do not
+    enter the list: replacing that base by any other class (with any fields, or not a TlvModel at all)
+    changes nothing.  In particular plain inheritance without `IncludeBase` yields the own fields only. -/
+theorem base_not_included_ignored {α : Type} (bases : List (BaseCls (List Char) α))
+    (body : List (List Char × Decl α)) (j : Nat) (b : BaseCls (List Char) α)
+    (h : ∀ p ∈ visible body, p.2 ≠ .includeBase j) :
+    mergeFields (bases.set j b) body = mergeFields bases body := by
+  have := foldlM_set_base bases j b (visible body) ⟨[], []⟩ h
+  unfold mergeFields mergeClass
+  unfold visible at this
+  rw [this]
+
+/-- own fields only: a class body without (visible) `IncludeBase` -/
+theorem inherit_without_include {α : Type} (bases : List (BaseCls (List Char) α))
+    (body : List (List Char × Decl α)) (h : ∀ p ∈ visible body, ∀ i, p.2 ≠ .includeBase i) :
+    mergeFields bases body = .ok ((visible body).filterMap fun p =>
+      match p.2 with
+      | .field f => some (p.1, f)
+      | _ => none) := by
+  have hl : Legal bases (visible body) := fun p hp i hi => absurd hi (h p hp i)
+  obtain ⟨fs, hfs⟩ := (merge_ok_iff bases body).2 hl
+  rw [hfs, merge_is_assignment bases body fs hfs]
+  have hk : (PyDict.keys (visible body)).Nodup := by
+    have : (PyDict.keys (classDict body)).Nodup := assignAll_nodup body
+    exact List.Nodup.sublist (List.Sublist.map _ List.filter_sublist) this
+  have he : ∀ (d : List (List Char × Decl α)), (∀ p ∈ d, ∀ i, p.2 ≠ .includeBase i) →
+      expand bases d = d.filterMap fun p =>
+        match p.2 with
+        | .field f => some (p.1, f)
+        | _ => none := by
+    intro d hd
+    induction d with
+    | nil => rfl
+    | cons p r ih =>
+      have ih := ih (fun q hq => hd q (List.mem_cons_of_mem _ hq))
+      simp only [expand, List.flatMap_cons] at ih ⊢
+      rw [ih]
+      cases hp : p.2 with
+      | field f => simp [hp]
+      | other => simp [hp]
+      | includeBase i => exact absurd hp (hd p (by simp) i)
+  rw [he _ h]
+  congr 1
+  apply assignAll_of_nodup
+  refine List.Nodup.sublist ?_ hk
+  have : ∀ d : List (List Char × Decl α), List.Sublist ((d.filterMap fun p =>
+        match p.2 with
+        | .field f => some (p.1, f)
+        | _ => none).map (·.1)) (PyDict.keys d) := by
+    intro d
+    induction d with
+    | nil => simp [PyDict.keys]
+    | cons p r ih =>
+      cases hp : p.2 with
+      | field f => simpa [List.filterMap_cons, hp, PyDict.keys] using ih
+      | other => simpa [List.filterMap_cons, hp, PyDict.keys] using ih.trans (List.sublist_cons_self _ _)
+      | includeBase i => simpa [List.filterMap_cons, hp, PyDict.keys] using ih.trans (List.sublist_cons_self _ _)
+  exact this _
+
+/-- the encoding of each field of a model, separately -/
+def encEach : List Schema → List Value → Except PyErr (List Bytes)
+  | s :: ss, v :: vs => do
+    let a ← enc s v
+    let r ← encEach ss vs
+    pure (a :: r)
+  | _, _ => .ok []
+
+theorem encFields_parts : ∀ (fs : List Schema) (vs : List Value) (b : Bytes), encFields fs vs = .ok b →
+    ∃ parts, encEach fs vs = .ok parts ∧ b = concatB parts ∧ ∀ p ∈ parts, TlvSeq p
+  | [], _, b, h => by simp [encFields] at h; subst h; exact ⟨[], by simp [encEach], rfl, by simp⟩
+  | _ :: _, [], b, h => by simp [encFields] at h; subst h; exact ⟨[], by simp [encEach], rfl, by simp⟩
+  | s :: ss, v :: vs, b, h => by
+    simp only [encFields] at h
+    obtain ⟨a, ha, h2⟩ := bind_ok h
+    obtain ⟨c, hc, h3⟩ := bind_ok h2
+    simp only [pure, Except.pure] at h3; cases h3
+    obtain ⟨parts, hp, rfl, ht⟩ := encFields_parts ss vs c hc
+    refine ⟨a :: parts, ?_, rfl, ?_⟩
+    · simp [encEach, ha, hp, bind, Except.bind, pure, Except.pure]
+    · intro p hp
+      rcases List.mem_cons.1 hp with rfl | hp
+      · exact enc_seq s v _ ha
+      · exact ht p hp
+
+/-- **derived_encodes_in_merged_order.** An instance of a class with base classes is encoded as the
+    concatenation, in the order of the merged field list (`merged_order`), of the encodings of the fields
+    in that list, each a well-formed TLV sequence, and so is the whole (`enc_wellformed`). -/
+theorem derived_encodes_in_merged_order (bases : List (BaseCls (List Char) Schema))
+    (body : List (List Char × Decl Schema)) (fs : List (List Char × Schema)) (vs : List Value) (b : Bytes)
+    (hm : mergeFields bases body = .ok fs) (he : encFields (fs.map (·.2)) vs = .ok b) :
+    fs = assignAll (expand bases (visible body)) ∧ TlvSeq b ∧
+      ∃ parts, encEach (fs.map (·.2)) vs = .ok parts ∧ b = concatB parts ∧ ∀ p ∈ parts, TlvSeq p :=
+  ⟨merge_is_assignment bases body fs hm, enc_wellformed _ vs b he, encFields_parts _ vs b he⟩
+
+section MergeExamples
+/-- the class of the documentation: `class Derived(Base): m1; _base = IncludeBase(Base); m3`, and an
+    override of `m2` declared after the including, which stays where `m2` stood -/
+example : mergeFields [some [("m2".toList, Schema.uint 2 none)]]
+    [("m1".toList, .field (.uint 1 none)), ("_base".toList, .includeBase 0), ("m3".toList, .field (.uint 3 none)),
+     ("m2".toList, .field (.uint 5 (some 2)))]
+    = .ok [("m1".toList, .uint 1 none), ("m2".toList, .uint 5 (some 2)), ("m3".toList, .uint 3 none)] := by rfl
+/-- a base that is not included contributes nothing; dunder attributes are not looked at -/
+example : mergeFields [some [("m2".toList, Schema.uint 2 none)]]
+    [("m1".toList, .field (.uint 1 none)), ("__x".toList, .includeBase 0)]
+    = .ok [("m1".toList, .uint 1 none)] := by rfl
+/-- `IncludeBase` of a class that is not a direct base -/
+example : mergeFields (α := Schema) [some []] [("_b".toList, .includeBase 1)] = .error .includeBaseError := by rfl
+end MergeExamples
 
 end Ndn.C08
